@@ -40,6 +40,12 @@ def is_cur_char(n):
     return False
 
 
+def is_next_char(n):
+    """fp.start[1]"""
+    n = strip(n)
+    return n is not None and n["k"] == "ArraySubscriptExpr" and is_cursor(kids(n)[0]) and literal(kids(n)[1]) == 1
+
+
 class State:
     __slots__ = ("K", "P", "S")
 
@@ -71,6 +77,7 @@ def run(ctx):
     R.rule("C12-R5", "the scanner does not recurse on its input (literal scanner, tokenizer and lex helpers form no call cycle)", floor=30)
     R.rule("C12-R6", "a line start recorded inside a scanning loop is computed from the pointer that loop advances", floor=8)
     R.rule("C12-R7", "every operator spelling the printer can emit is known to the tokenizer (registered in getOperators)", floor=45)
+    R.rule("C12-R9", "a block comment is scanned from behind its opener to the first `*/`, with no escape character", floor=2)
     R.rule("C12-R4", "escape/unescape delimiters agree between printers and tokenizer; operator consumed by match length", floor=6)
 
     methods = [f for f in prog.methods_of("occa::lang::tokenizer_t")]
@@ -179,6 +186,31 @@ def run(ctx):
             return True
         return False
 
+    def nn1(f, e, pol):
+        """does (e == pol) imply that the character after the current one is not NUL?"""
+        e = strip(e)
+        if e is None:
+            return False
+        k = e["k"]
+        c = kids(e)
+        if k == "UnaryOperator" and e.get("op") == "!":
+            return nn1(f, c[0], not pol)
+        if k == "BinaryOperator" and e.get("op") == "||":
+            return (nn1(f, c[0], True) and nn1(f, c[1], True)) if pol else (nn1(f, c[0], False) or nn1(f, c[1], False))
+        if k == "BinaryOperator" and e.get("op") == "&&":
+            return (nn1(f, c[0], True) or nn1(f, c[1], True)) if pol else (nn1(f, c[0], False) and nn1(f, c[1], False))
+        if k == "BinaryOperator" and e.get("op") in ("==", "!="):
+            eq = (e["op"] == "==") == pol
+            for a, b in ((c[0], c[1]), (c[1], c[0])):
+                if is_next_char(a):
+                    v = literal(b)
+                    if isinstance(v, int):
+                        return (eq and v != 0) or ((not eq) and v == 0)
+            return False
+        if is_next_char(e) and pol:
+            return True
+        return False
+
     def succ_known(f, e, pol, st):
         e = strip(e)
         if e is not None and e["k"] == "CXXMemberCallExpr" and callee(e).endswith("result_t::success") and pol:
@@ -209,6 +241,8 @@ def run(ctx):
                 for (e_, pol) in whole.get(b, ()):
                     if nn(f, e_, pol, st):
                         st.K = True
+                    if nn1(f, e_, pol):
+                        st.S = st.S | {"K1"}
                 blk = cfg.blocks[b]
                 for e in blk.elems:
                     n = nodes.get(e) if isinstance(e, int) else None
@@ -241,6 +275,8 @@ def run(ctx):
                             txt = noid(render(rhs, False)).replace(" ", "")
                             if txt in ("(1+(this->fp.start[1]!='\\x00'))", "(1+(this->fp.start[1]!=0))") or (rhs["k"] == "BinaryOperator" and literal(kids(rhs)[0]) == 1 and "fp.start[1]" in txt and "!=" in txt):
                                 need, ok = "1 character (+1 if the next is not NUL)", st.K
+                            elif literal(rhs) == 2 and rhs["k"] == "IntegerLiteral":
+                                need, ok = "2 characters", st.K and "K1" in st.S
                             elif rhs["k"] == "MemberExpr" and rhs.get("n", "").endswith("result_t::length") and strip(kids(rhs)[0])["k"] == "DeclRefExpr":
                                 need, ok = "the matched operator", strip(kids(rhs)[0])["d"] in st.S and strip(kids(rhs)[0])["d"] in st.P
                             else:
@@ -343,6 +379,17 @@ def run(ctx):
     escape_checks(prog, R, "C12-R3", "C12-R4")
     scanner_shape(ctx, R)
     operator_registration(ctx, R)
+    bc = prog.fn(TK + "getBlockCommentToken")
+    esc = [c for c in bc.walk() if is_call(c) and callee(c) in (TK + "skipTo", TK + "skipFrom")]
+    R.ob("C12-R9", not esc, bc.q, "no escape-aware skip inside a comment", bc.site(esc[0]) if esc else "%s:%d" % (bc.relfile, bc.d["line"]),
+         "the scan looks at `*` `/` pairs only" if not esc else
+         "the comment is scanned with skipTo(), which steps over a backslash and the character behind it: `/* a \\*/ y` swallows the rest of the input as one comment")
+    loops = [n for n in bc.walk() if n["k"] in ("WhileStmt", "ForStmt", "DoStmt") and not n.get("mac")]
+    adv = [n for n in bc.walk() if write_target(n) is not None and is_cursor(write_target(n)) and n["k"] == "CompoundAssignOperator" and literal(kids(n)[1]) == 2]
+    skipped = bool(loops) and any(bc.cfg.before(a, loops[0]) or bc.cfg.find_path(bc.cfg.position(a), lambda b, i, e: e == bc.cfg.blocks[bc.cfg.position(loops[0])[0]].elems[0] if bc.cfg.position(loops[0]) else False, lambda b, i, e: False) is not None
+                                  for a in adv if not any(x["i"] == loops[0]["i"] for x in bc.ancestors(a)))
+    R.ob("C12-R9", skipped, bc.q, "the opener is stepped over before the scan", bc.site(adv[0]) if adv else "%s:%d" % (bc.relfile, bc.d["line"]),
+         "the scan starts behind `/*`" if skipped else "the scan starts on the opener's own `*`: `/*/` is taken for a complete comment and the rest of it becomes live tokens")
     # operators are split by longest match: the lookup structure is the trie (shared clause with C28)
     from rules import c28
     from vlib.refile import refile
